@@ -50,6 +50,38 @@ def _get_graph_as_dict(composite: Composite) -> dict:
     }
 
 
+def _seat_replacement(replacement: Node, owned: Node) -> None:
+    """
+    `copy_io` _prepends_ the copied connections. Put every channel of the replacement
+    exactly where the corresponding channel of the owned node sits -- in each
+    neighbour's connection list and in its own -- so that fetch priority and firing
+    order survive the replacement. The owned node's channels let go.
+    """
+    stand_ins = {}
+    for new_panel, old_panel in zip(
+        replacement._owned_io_panels, owned._owned_io_panels, strict=False
+    ):
+        for key, old_channel in old_panel.items():
+            if old_channel.connected:
+                stand_ins[id(old_channel)] = (old_channel, new_panel[key])
+    neighbours = {
+        id(channel): channel
+        for old_channel, _ in stand_ins.values()
+        for channel in old_channel.connections
+    }
+    for channel in neighbours.values():
+        channel.connections = [
+            stand_ins[id(c)][1] if id(c) in stand_ins else c
+            for c in channel.connections
+            if c.owner is not replacement  # The prepended copy
+        ]
+    for old_channel, new_channel in stand_ins.values():
+        new_channel.connections = [
+            c for c in old_channel.connections if c.owner is not owned
+        ]
+        old_channel.connections = []
+
+
 class FailedChildError(RuntimeError):
     """Raise when one or more child nodes raise exceptions."""
 
@@ -494,6 +526,8 @@ class Composite(LexicalParent[Node], HasCreator, Node, ABC):
         # fail here before we've changed the parent at all. Since the replacement was
         # first guaranteed to be an unconnected orphan, there is not yet any permanent
         # damage
+        # `copy_io` prepends; give the replacement the owned node's places instead
+        _seat_replacement(replacement_node, owned_node_instance)
         is_starting_node = owned_node_instance in self.starting_nodes
         self.remove_child(owned_node_instance)
         replacement_node.label, owned_node_instance.label = (
